@@ -341,7 +341,10 @@ fn run(case: &Case, target: u64) -> (u64, Option<&'static str>, Option<String>, 
     };
     for line in &case.ops {
         let fired_before = FIRED.with(|c| c.get()).is_some();
+        let _ = take_drops();
         let _ = catch_unwind(AssertUnwindSafe(|| obj.op(line)));
+        // keys and values dropped while the library (or the unwind through it) was running this operation
+        let dropped = take_drops();
         match catch_unwind(AssertUnwindSafe(|| obj.audit())) {
             Ok(Ok(())) => {
                 if let (Obj::Raw(c), Some(p)) = (&obj, &pre) {
@@ -350,7 +353,7 @@ fn run(case: &Case, target: u64) -> (u64, Option<&'static str>, Option<String>, 
                         let post = snapshot(c);
                         if let Some(site) = fired_now {
                             inj = Some(format!(
-                                "cap={} precap={} len={} | site={} | op={} | pre={} idx={} | post={} idx={}",
+                                "cap={} precap={} len={} | site={} | op={} | pre={} idx={} | post={} idx={} | dr={}",
                                 c.cap(),
                                 precap,
                                 c.len(),
@@ -359,7 +362,8 @@ fn run(case: &Case, target: u64) -> (u64, Option<&'static str>, Option<String>, 
                                 p.0,
                                 p.1,
                                 post.0,
-                                post.1
+                                post.1,
+                                dropped
                             ));
                             pre = None;
                         } else {
